@@ -903,6 +903,15 @@ impl VecModel {
                 acts.push(VAct::DrainFilter { p, mode });
             }
         }
+        if E::COPY && self.mode == VMode::Diff {
+            // a predicate that panics after some elements were removed / kept: same contents as std afterwards
+            for p in [7u8, 8, 9] {
+                acts.push(VAct::Retain { p });
+                for mode in [0u8, 2] {
+                    acts.push(VAct::DrainFilter { p, mode });
+                }
+            }
+        }
         acts.push(VAct::Dedup);
         for p in [0u8, 1, 4, 5, 6] {
             acts.push(VAct::DedupBy { p });
